@@ -323,17 +323,17 @@ def translate(out_dir=GEN_DIR, seed=0):
 
     header = "-- GENERATED by tools/translate.py from /repo's kernel generators. DO NOT EDIT.\n"
     with open(os.path.join(out_dir, "Kernels.lean"), "w") as f:
-        f.write(header + "import SophtVerif.Core.Grid\n\nset_option linter.unusedVariables false\n\nnamespace Sopht.Gen\n\n"
+        f.write(header + "import SophtVerif.Core.Grid\n\nset_option linter.unusedVariables false\nset_option linter.style.nameCheck false\n\nnamespace Sopht.Gen\n\n"
                 "variable {K : Type} [Field K] [LinearOrder K] [IsStrictOrderedRing K]\n\n")
         f.write("\n".join(alg))
         f.write("\nend Sopht.Gen\n")
     with open(os.path.join(out_dir, "KernelsReal.lean"), "w") as f:
         f.write(header + "import SophtVerif.Core.Grid\nimport Mathlib.Analysis.SpecialFunctions.Trigonometric.Basic\n\n"
-                "set_option linter.unusedVariables false\n\nnamespace Sopht.Gen\n\n")
+                "set_option linter.unusedVariables false\nset_option linter.style.nameCheck false\n\nnamespace Sopht.Gen\n\n")
         f.write("\n".join(real))
         f.write("\nend Sopht.Gen\n")
     with open(os.path.join(out_dir, "KernelsFloat.lean"), "w") as f:
-        f.write(header + "import SophtVerif.Core.Grid\n\nset_option linter.unusedVariables false\n\nnamespace Sopht.Gen\n\n")
+        f.write(header + "import SophtVerif.Core.Grid\n\nset_option linter.unusedVariables false\nset_option linter.style.nameCheck false\n\nnamespace Sopht.Gen\n\n")
         f.write("\n".join(flt))
         f.write("\nend Sopht.Gen\n")
     _write_table(out_dir, header, table)
